@@ -678,10 +678,13 @@ impl QueryJob {
 
         let (relation, tuple) = parse_why_not_target(&input)?;
         let query_start = std::time::Instant::now();
-        let (rules, base_data) = storage
-            .get_rules_and_data(&kg_name)
+        // Facts of derived relations count as much as stored facts: a body atom over a
+        // derived relation holds (and a negated one is blocked) when a derived fact matches.
+        let (rules, base_data, derived_data) = storage
+            .get_rules_and_data_with_derived(&kg_name, &relation)
             .map_err(|e| format!("Failed to access knowledge graph: {e}"))?;
-        let ctx = ProofContext::new(&rules, &base_data, ProofConfig::default());
+        let ctx = ProofContext::new(&rules, &base_data, ProofConfig::default())
+            .with_derived_data(&derived_data);
         let query_us = query_start.elapsed().as_micros() as u64;
 
         let explain_start = std::time::Instant::now();
